@@ -67,10 +67,15 @@ def sh(cmd, cwd=None, timeout=600, env=None, stdin=None, check=False):
     return p.returncode, p.stdout, p.stderr
 
 
-def run_lines(cmd, ops, timeout=1200, shell=False, max_crashes=20):
-    """feed op lines to a line-per-op executor; when it dies, record a CRASH for the op in flight and restart after it"""
+def run_lines(cmd, ops, timeout=1200, shell=False, max_crashes=20, crash_budget_s=600):
+    """feed op lines to a line-per-op executor; when it dies, record a CRASH for the op in flight and restart after it
+    (crash_budget_s: once restarts have gone on for this long, the remaining ops are reported as not run instead of being retried one crash at a time)"""
     out, crashes, start = [], 0, 0
+    t0 = time.time()
     while start < len(ops):
+        if crashes > 20 and time.time() - t0 > crash_budget_s:
+            out += ["CRASH (not run)"] * (len(ops) - start)
+            break
         inp = "\n".join(ops[start:]) + "\n"
         rc, so, se = sh(cmd, stdin=inp, timeout=timeout)
         got = so.split("\n")[:-1] if so else []
